@@ -1,5 +1,7 @@
 import VlsModel.Gen.FnB3NodeFind
 import VlsModel.Gen.FnB3NodeFindM
+import VlsModel.Gen.FnB3NodeState
+import VlsModel.Gen.FnB3Allowable
 import VlsModel.Model.Onchain
 import VlsModel.Gen.FnSimple
 import VlsModel.Gen.FnOnchainTx
@@ -806,6 +808,23 @@ theorem C08_fn_memo_approve_onchain (d : Approver Tx) (appr : List (Approval I P
   · have hh' : memoHit (appr.map memoOf) tx = false := by simpa using hh
     simp [Approver.approveOnchain, hh', delegateE, pure, Except.pure, bind, Except.bind]
 
+/-- (round 10, b3) `MemoApprover::new`: no memoized approval; `MemoApprover::approve(a)`: the memo list **is** `a` (an older memo
+    is overwritten, not extended; the delegate is untouched) -/
+theorem C08_fn_memo_new_approve (d : Approver Tx) (old appr : List (Approval I P Tx)) :
+    (MemoApprover.new d : MemoApprover I P Tx (Approver Tx)) = ⟨d, []⟩
+      ∧ MemoApprover.approve ⟨d, old⟩ appr = ⟨d, appr⟩ := ⟨rfl, rfl⟩
+
+/-- … so the `approve_onchain` that follows `approve(a)` decides on exactly `a` (and on nothing memoized earlier), and a fresh
+    memo approver decides as its delegate -/
+theorem C08_fn_memo_approve_then_onchain (d : Approver Tx) (old appr : List (Approval I P Tx)) (tx : Tx) (po : List O)
+    (idx : List Nat) :
+    MemoApprover.approve_onchain (ext_delegate_approve_onchain := delegateE) (MemoApprover.approve ⟨d, old⟩ appr) tx po idx
+        = .ok (⟨d, []⟩, ((Approver.memo (appr.map memoOf) d).approveOnchain tx).2)
+      ∧ MemoApprover.approve_onchain (ext_delegate_approve_onchain := delegateE)
+          (MemoApprover.new d : MemoApprover I P Tx (Approver Tx)) tx po idx
+        = .ok (⟨d, []⟩, ((Approver.memo [] d).approveOnchain tx).2) :=
+  ⟨C08_fn_memo_approve_onchain d appr tx po idx, C08_fn_memo_approve_onchain d [] tx po idx⟩
+
 /-- non-vacuity: a memo for transaction 7 approves 7 and nothing else under a declining delegate; afterwards it is spent -/
 example : ((Approver.memo [Memo.invoice, .onchain 7] .negative).approveOnchain 7).2 = true
     ∧ ((Approver.memo [Memo.invoice, .onchain 7] .negative).approveOnchain 8).2 = false
@@ -1247,5 +1266,91 @@ example : find_channel_with_funding_outpoint [(1, ChannelSlot.Stub ⟨⟩), (2, 
     = .ok none := by rw [C08_fn_find_channel_with_funding_outpoint]; rfl
 
 end NodeFind
+
+/-! ## (round 10, b3) clause 5 across a restart: the constructors of `NodeState` (`Gen.FnB3NodeState`, node.rs)
+
+`check_onchain_tx` inserts into `state.fee_velocity_control` (`C08_fn_check_onchain_tx`).  Where that control comes from:
+`NodeState::new` (fresh node), `NodeState::restore` (vls-persist, from the persisted entry), then
+`NodeState::with_log_prefix` in `Node::new_full`.  `VelocityControl` is an opaque type here, so the equalities below can
+only hold because the argument is **passed through** into the field of its own name — the fee control is not replaced by a
+fresh one, by the global control, or dropped.  The hash-table conversions of `restore` are the externals `inv`/`iss`/`pay`
+(`expect("payment hash decode")` ⇒ partial), `OrderedSet::from_iter` is `setOf`. -/
+
+section NodeStateCtor
+open VlsModel.Gen.FnB3NodeState
+variable {H VC S X P : Type}
+
+/-- `NodeState::new`: empty tables, zero counters, both controls and the allowlist as given -/
+theorem C08_fn_node_state_new (setOf : List (Allowable S X P) → List (Allowable S X P)) (vc fvc : VC)
+    (al : List (Allowable S X P)) :
+    (NodeState.new setOf vc fvc al : NodeState H VC S X P)
+      = { invoices := [], issued_invoices := [], payments := [], excess_amount := 0, log_prefix := "",
+          velocity_control := vc, fee_velocity_control := fvc, last_summary := "", dbid_high_water_mark := 0,
+          allowlist := setOf al } := rfl
+
+/-- `NodeState::restore`: fails only where a table conversion fails; otherwise every persisted component lands in the field
+    of its own name -/
+theorem C08_fn_node_state_restore
+    (inv iss : List (List Nat × PaymentState) → Rs.M (List (H × PaymentState)))
+    (pay : List (List Nat) → List (H × RoutedPayment)) (setOf : List (Allowable S X P) → List (Allowable S X P))
+    (iv isv : List (List Nat × PaymentState)) (pre : List (List Nat)) (ex : Nat) (vc fvc : VC) (hw : Nat)
+    (al : List (Allowable S X P)) :
+    (NodeState.restore inv iss pay setOf iv isv pre ex vc fvc hw al : Rs.M (NodeState H VC S X P))
+      = match inv iv with
+        | .error e => .error e
+        | .ok i => match iss isv with
+          | .error e => .error e
+          | .ok j => .ok { invoices := i, issued_invoices := j, payments := pay pre, excess_amount := ex, log_prefix := "",
+                           velocity_control := vc, fee_velocity_control := fvc, last_summary := "",
+                           dbid_high_water_mark := hw, allowlist := setOf al } := by
+  unfold NodeState.restore
+  cases inv iv <;> cases iss isv <;> rfl
+
+/-- clause 5 across a restart: a restored state carries exactly the persisted fee control (and the persisted global
+    control, high-water mark, excess amount) -/
+theorem C08_fn_node_state_restore_fee_control
+    (inv iss : List (List Nat × PaymentState) → Rs.M (List (H × PaymentState)))
+    (pay : List (List Nat) → List (H × RoutedPayment)) (setOf : List (Allowable S X P) → List (Allowable S X P))
+    (iv isv : List (List Nat × PaymentState)) (pre : List (List Nat)) (ex : Nat) (vc fvc : VC) (hw : Nat)
+    (al : List (Allowable S X P)) (st : NodeState H VC S X P)
+    (h : NodeState.restore inv iss pay setOf iv isv pre ex vc fvc hw al = .ok st) :
+    st.fee_velocity_control = fvc ∧ st.velocity_control = vc ∧ st.dbid_high_water_mark = hw ∧ st.excess_amount = ex
+      ∧ st.allowlist = setOf al := by
+  rw [C08_fn_node_state_restore] at h
+  cases h1 : inv iv with
+  | error e => simp [h1] at h
+  | ok i =>
+    cases h2 : iss isv with
+    | error e => simp [h1, h2] at h
+    | ok j =>
+      simp only [h1, h2] at h
+      injection h with h
+      subst h
+      exact ⟨rfl, rfl, rfl, rfl, rfl⟩
+
+/-- `with_log_prefix` (`Node::new_full`): the two controls handed in (the state's own, after `update_spec`) replace the old
+    ones, each in its own field; tables, counters and allowlist are kept -/
+theorem C08_fn_node_state_with_log_prefix (st : NodeState H VC S X P) (vc fvc : VC) (lp : String) :
+    st.with_log_prefix vc fvc lp
+      = { st with log_prefix := lp, velocity_control := vc, fee_velocity_control := fvc, last_summary := "" } := rfl
+
+example : (NodeState.restore (PaymentHash := Nat) (ScriptBuf := Nat) (Xpub := Nat) (PublicKey := Nat) (fun _ => .ok []) (fun _ => .ok []) (fun _ => []) id
+    [] [] [] 5 (10 : Nat) 20 7 [.Script 1]).map (fun st => (st.velocity_control, st.fee_velocity_control, st.dbid_high_water_mark))
+    = .ok (10, 20, 7) := by rfl
+example : (NodeState.restore (PaymentHash := Nat) (ScriptBuf := Nat) (Xpub := Nat) (PublicKey := Nat) (fun _ => .error .panic) (fun _ => .ok []) (fun _ => []) id
+    [] [] [] 5 (10 : Nat) 20 7 []) = .error .panic := by rfl
+
+end NodeStateCtor
+
+/-! ## (round 10, b3) `Allowable::to_script` (`Gen.FnB3Allowable`, node.rs) -/
+
+/-- only a `Script` entry of the allowlist is a destination script: an xpub or a Lightning payee entry is `Err(())`, never a
+    script (an allowlisted payee key cannot be used as an on-chain destination through this conversion) -/
+theorem C08_fn_allowable_to_script {S X P : Type} (a : Gen.FnB3Allowable.Allowable S X P) :
+    a.to_script = match a with
+      | .Script s => .ok s
+      | .XPub _ => Rs.fail "()"
+      | .Payee _ => Rs.fail "()" := by
+  cases a <;> rfl
 
 end VlsModel.Props.C08Fn
